@@ -869,6 +869,129 @@ func (b *B) FirstHitScan(rule, construct, where string, fc *FC, hdr *ssa.BasicBl
 	return true
 }
 
+// LoopOutcome: one way a loop ends, as the condition (at the loop-carried
+// values of the iteration that ends it) and the value the function then returns.
+type LoopOutcome struct {
+	Cond, Val *RF
+}
+
+// LoopOutcomes: the outcomes of the single loop l of fc. A way out from inside
+// an iteration is an outcome as it stands. A loop driven by a latch flag
+// (`for !done { … done = true … }`, left at the header) ends after the
+// iteration that flips the flag: the outcome's condition is the flip condition
+// in that iteration and its value is the returned value with every
+// loop-carried quantity at the value that iteration leaves — quantities that
+// stay unchanged as long as the loop goes on being at their initial values.
+func (b *B) LoopOutcomes(fc *FC, l *Loop) ([]LoopOutcome, string) {
+	s, X := b.X.S, b.X
+	hdr := l.Header
+	_, _, guard, msg := b.loopGuard(fc, hdr)
+	if msg != "" {
+		guard = map[int]bool{}
+	}
+	var flags []latch
+	for _, lf := range fc.latchFlags(hdr) {
+		flags = append(flags, lf)
+	}
+	var out []LoopOutcome
+	for _, ee := range fc.ExitEdges(hdr) {
+		v := fc.gatedReturns(ee.To, 0, nil)
+		if v == nil {
+			return nil, "the value returned after leaving the loop is not computable"
+		}
+		if s.isBottom(v) {
+			continue
+		}
+		v = fc.resolveAlongEdge(ee.From, ee.To, v)
+		v = fc.resolveExitPhis(l, ee.To, v)
+		if !guard[ee.From.Index] || len(flags) == 0 {
+			out = append(out, LoopOutcome{ee.Cond, v})
+			continue
+		}
+		if len(flags) != 1 {
+			return nil, "the loop is driven by several flags"
+		}
+		lf := flags[0]
+		fid := lf.atom.SingleAtom().ID
+		initV, flipped := s.True(), s.False()
+		if !lf.init {
+			initV, flipped = s.False(), s.True()
+		}
+		// the header exit must be exactly "the flag is flipped"
+		if !X.SimplifyUnder(ee.Cond, []Assumption{{Cond: lf.atom, True: !lf.init}}).Equal(s.True()) ||
+			!X.SimplifyUnder(ee.Cond, []Assumption{{Cond: lf.atom, True: lf.init}}).Equal(s.False()) {
+			return nil, "the loop's guard tests more than its flag: " + clip(ee.Cond.String(), 120)
+		}
+		_ = flipped
+		noflip := []Assumption{{Cond: lf.flip, True: false}, {Cond: lf.atom, True: lf.init}}
+		nextSub := map[AtomID]*RF{}
+		stable := map[AtomID]*RF{fid: initV}
+		for _, in := range hdr.Instrs {
+			ph, ok := in.(*ssa.Phi)
+			if !ok {
+				break
+			}
+			q := fc.Val(ph)
+			qa := q.SingleAtom()
+			if qa == nil || X.phiOf[qa.ID] != ph {
+				continue
+			}
+			qi, qn := recurrenceOrNil(fc, q)
+			if qi == nil {
+				return nil, "a loop-carried value without a recurrence: " + qa.Name
+			}
+			nextSub[qa.ID] = qn
+			if qa.ID != fid {
+				rq := X.restrictNoFlip(qn, lf.flip, true, 0)
+				if rq != nil && (X.SimplifyUnder(rq, noflip).Equal(q) || X.SimplifyUnder(qn, noflip).Equal(q)) {
+					stable[qa.ID] = qi
+				}
+			}
+		}
+		val := v.Subst(nextSub).Subst(stable)
+		cond := lf.flip.Subst(stable)
+		out = append(out, LoopOutcome{cond, X.SimplifyUnder(val, []Assumption{{Cond: cond, True: true}})})
+	}
+	return out, ""
+}
+
+// SplitOutcome: an outcome whose value is a tuple with a boolean component
+// given as a choice (ok = true on one branch, unchanged on the other) is split
+// into one outcome per truth value of that component.
+func (b *B) SplitOutcome(o LoopOutcome, comp int) []LoopOutcome {
+	s, X := b.X.S, b.X
+	at := o.Val.SingleAtom()
+	if at == nil || at.Name != "tuple" || comp >= len(at.Args) {
+		return []LoopOutcome{o}
+	}
+	c := at.Args[comp]
+	if c.Equal(s.True()) || c.Equal(s.False()) {
+		return []LoopOutcome{o}
+	}
+	var outs []LoopOutcome
+	for _, truth := range []bool{true, false} {
+		as := []Assumption{{Cond: c, True: truth}}
+		cond := s.And(o.Cond, c)
+		if !truth {
+			cond = s.And(o.Cond, s.Not(c))
+		}
+		if cond.Equal(s.False()) {
+			continue
+		}
+		args := make([]*RF, len(at.Args))
+		for i, a := range at.Args {
+			args[i] = X.SimplifyUnder(a, as)
+		}
+		if truth {
+			args[comp] = s.True()
+		} else {
+			args[comp] = s.False()
+		}
+		outs = append(outs, LoopOutcome{cond, s.MakeFn("tuple", args...)})
+	}
+	return outs
+}
+
 // ContinueCond: the condition, within one iteration of the loop headed by hdr
 // (at its loop-carried values), under which the iteration runs to a back edge,
 // i.e. the loop goes round again.
@@ -1258,6 +1381,152 @@ func (fc *FC) latchFlags(hdr *ssa.BasicBlock) []latch {
 	return out
 }
 
+// restrictNoFlip: q restricted to the cases in which the boolean f does not
+// take the value `flipped` — the case analysis follows f's own structure
+// (ite / or / and / not), so only the conditions that decide the flag are
+// split. nil when f always takes that value.
+func (x *Extractor) restrictNoFlip(q, f *RF, flipped bool, depth int) *RF {
+	s := x.S
+	if f.Equal(s.True()) || f.Equal(s.False()) {
+		if f.Equal(s.True()) == flipped {
+			return nil
+		}
+		return q
+	}
+	at := f.SingleAtom()
+	if at == nil || depth > 12 {
+		return q
+	}
+	var c, a, b *RF
+	switch {
+	case at.Name == "ite" && len(at.Args) == 3:
+		c, a, b = at.Args[0], at.Args[1], at.Args[2]
+	case at.Name == "lor" && len(at.Args) >= 2:
+		c, a, b = at.Args[0], s.True(), s.MakeFn("lor", at.Args[1:]...)
+		if len(at.Args) == 2 {
+			b = at.Args[1]
+		}
+	case at.Name == "land" && len(at.Args) >= 2:
+		c, a, b = at.Args[0], s.MakeFn("land", at.Args[1:]...), s.False()
+		if len(at.Args) == 2 {
+			a = at.Args[1]
+		}
+	case at.Name == "not" && len(at.Args) == 1:
+		return x.restrictNoFlip(q, at.Args[0], !flipped, depth+1)
+	default:
+		// an atomic condition: the flag takes the unflipped value exactly when it is !flipped
+		return x.SimplifyUnder(q, []Assumption{{Cond: f, True: !flipped}})
+	}
+	t := []Assumption{{Cond: c, True: true}}
+	e := []Assumption{{Cond: c, True: false}}
+	r1 := x.restrictNoFlip(x.SimplifyUnder(q, t), x.SimplifyUnder(a, t), flipped, depth+1)
+	r2 := x.restrictNoFlip(x.SimplifyUnder(q, e), x.SimplifyUnder(b, e), flipped, depth+1)
+	switch {
+	case r1 == nil:
+		return r2
+	case r2 == nil:
+		return r1
+	case r1.Equal(r2):
+		return r1
+	}
+	return s.Ite(c, r1, r2)
+}
+
+// exitUses: the loop-carried atoms of hdr's loop that the value returned after
+// the loop's guard fails mentions (their values left by the final iteration
+// reach the result; every other quantity's update in that iteration is dead).
+func (fc *FC) exitUses(hdr *ssa.BasicBlock) (map[AtomID]bool, bool) {
+	var l *Loop
+	for _, ll := range fc.Ctx.Loops() {
+		if ll.Header == hdr {
+			l = ll
+		}
+	}
+	if l == nil {
+		return nil, false
+	}
+	uses := map[AtomID]bool{}
+	for _, sc := range hdr.Succs {
+		if l.Body[sc.Index] {
+			continue
+		}
+		v := fc.gatedReturns(sc, 0, nil)
+		if v == nil {
+			return nil, false
+		}
+		if fc.X.S.isBottom(v) {
+			continue
+		}
+		v = fc.resolveAlongEdge(hdr, sc, v)
+		v = fc.resolveExitPhis(l, sc, v)
+		for _, a := range v.Atoms(true) {
+			if ph, ok := fc.X.phiOf[a.ID]; ok && ph.Block() == hdr {
+				uses[a.ID] = true
+			}
+			if _, ok := fc.X.memphiOf[a.ID]; ok {
+				return nil, false
+			}
+		}
+	}
+	return uses, true
+}
+
+// noFlipFor: like noFlip for one loop-carried quantity q, also under latch
+// flags that are not dead: when the loop is left only through its guard and the
+// returned value does not mention q, the value q is given by the iteration that
+// flips the flag is never read, so q's recurrence matters in the other
+// iterations only.
+func (fc *FC) noFlipFor(q *RF) []Assumption {
+	at := q.SingleAtom()
+	if at == nil {
+		for _, a := range q.Atoms(false) {
+			if _, ok := fc.X.phiOf[a.ID]; ok {
+				at = a
+			}
+		}
+	}
+	if at == nil {
+		return nil
+	}
+	ph, ok := fc.X.phiOf[at.ID]
+	if !ok {
+		return nil
+	}
+	pfc := fc.X.phiFC[at.ID]
+	var as []Assumption
+	var uses map[AtomID]bool
+	usesOK, usesDone := false, false
+	for _, l := range pfc.latchFlags(ph.Block()) {
+		if l.dead {
+			as = append(as, Assumption{Cond: l.flip, True: false}, Assumption{Cond: l.atom, True: l.init})
+			continue
+		}
+		if !usesDone {
+			uses, usesOK = pfc.exitUses(ph.Block())
+			usesDone = true
+		}
+		if usesOK && !uses[at.ID] && pfc.onlyGuardExits(ph.Block()) {
+			as = append(as, Assumption{Cond: l.flip, True: false}, Assumption{Cond: l.atom, True: l.init})
+		}
+	}
+	return as
+}
+
+// onlyGuardExits: the loop headed by hdr is left through its header test only
+// (or into panics).
+func (fc *FC) onlyGuardExits(hdr *ssa.BasicBlock) bool {
+	for _, ee := range fc.ExitEdges(hdr) {
+		if ee.From == hdr {
+			continue
+		}
+		if _, isP := ee.To.Instrs[len(ee.To.Instrs)-1].(*ssa.Panic); isP {
+			continue
+		}
+		return false
+	}
+	return true
+}
+
 // noFlip: assumptions stating that no (dead) latch flag of the loops carrying
 // the given quantities is flipped in the current iteration and that none has
 // been flipped before — the only iterations whose accumulated values can
@@ -1359,7 +1628,42 @@ func (b *B) LoopSystem(rule, construct, where string, fc *FC, from *RF, env *Spe
 			if err != nil {
 				panic(specErr(err.Error()))
 			}
-			if !recs[assign[k]].next.Equal(wn.RF) && !(len(noflip) > 0 && b.X.SimplifyUnder(recs[assign[k]].next, noflip).Equal(b.X.SimplifyUnder(wn.RF, noflip))) {
+			nf := noflip
+			if len(nf) == 0 {
+				nf = fc.noFlipFor(phis[assign[k]])
+			}
+			if os.Getenv("GMSA_DEBUG_LS") != "" {
+				fmt.Fprintf(os.Stderr, "LS %s role=%s phi=%s nf=%d\n  next=%s\n  simp=%s\n  want=%s\n", construct, sp.name, phis[assign[k]], len(nf), clip(recs[assign[k]].next.String(), 600), clip(b.X.SimplifyUnder(recs[assign[k]].next, nf).String(), 600), clip(b.X.SimplifyUnder(wn.RF, nf).String(), 600))
+				for _, a := range nf {
+					fmt.Fprintf(os.Stderr, "   nf %v %s\n", a.True, clip(a.Cond.String(), 300))
+				}
+			}
+			okNext := recs[assign[k]].next.Equal(wn.RF)
+			if !okNext && len(nf) > 0 {
+				okNext = b.X.SimplifyUnder(recs[assign[k]].next, nf).Equal(b.X.SimplifyUnder(wn.RF, nf))
+			}
+			if !okNext && len(nf) > 0 {
+				// the update restricted to the iterations that do not flip the flag, the cases
+				// split along the flag's own update
+				got, want := recs[assign[k]].next, wn.RF
+				for _, fa := range nf {
+					if fa.Cond == nil || fa.Cond.SingleAtom() == nil {
+						continue
+					}
+					if _, isPhi := b.X.phiOf[fa.Cond.SingleAtom().ID]; isPhi {
+						continue // the flag itself at its initial value: by substitution below
+					}
+					if g := b.X.restrictNoFlip(got, fa.Cond, !fa.True, 0); g != nil {
+						got = g
+					}
+					if w := b.X.restrictNoFlip(want, fa.Cond, !fa.True, 0); w != nil {
+						want = w
+					}
+				}
+				got, want = b.X.SimplifyUnder(got, nf), b.X.SimplifyUnder(want, nf)
+				okNext = got.Equal(want) || b.X.EquivByCases(got, want, 0)
+			}
+			if !okNext {
 				best = fmt.Sprintf("%s: step computes %s, stated %s = %s", sp.name, clip(recs[assign[k]].next.String(), 300), sp.next, clip(wn.RF.String(), 300))
 				return false
 			}
@@ -1552,10 +1856,18 @@ func (x *Extractor) EquivByCasesUnder(a, b *RF, assume []Assumption) bool {
 }
 
 // caseFeasible: the case described by `as` does not contradict the standing assumptions.
-func (x *Extractor) caseFeasible(as []Assumption) bool {
-	for _, c := range x.caseAssume {
+func (x *Extractor) caseFeasible(as0 []Assumption) bool {
+	for ci, c := range x.caseAssume {
 		if c.Cond == nil {
 			continue
+		}
+		// each standing assumption is tested against the case together with the other standing
+		// assumptions (g > maxL and maxL >= minL rule out g < minL only jointly)
+		as := append([]Assumption{}, as0...)
+		for cj, o := range x.caseAssume {
+			if cj != ci && o.Cond != nil {
+				as = append(as, o)
+			}
 		}
 		if os.Getenv("GMSA_TRACE_EQ") == "4" {
 			fmt.Fprintf(os.Stderr, "FEAS %s want=%v got=%v under", clip(c.Cond.String(), 120), c.True, x.EvalCond(c.Cond, as))
